@@ -180,6 +180,32 @@ theorem resolve_latest (grp : String) (rs : List Ref) (n : String) (r : Ref)
   apply hmax
   exact (sortRefs_perm _).symm.subset (by simp [hr', hn'])
 
+/-- `keys()` yields every registered reference, exactly as often as it was registered … -/
+theorem keys_lists_registered (rs : List Ref) : (rs.foldl register []).keys.Perm rs :=
+  registerAll_keys_perm rs
+
+/-- … and the references of one name appear in it as the (ascending, complete) version list of
+that name (`versions_sorted_all`), whatever the registration order. -/
+theorem keys_of_name (rs : List Ref) (n : String) :
+    (rs.foldl register []).keys.filter (fun r => r.name = n) = (rs.foldl register []).get n :=
+  Table.keys_filter_name _ (registerAll_WF rs) n
+
+/-- `name in group` holds exactly when some version of that name was registered,
+`(name, version) in group` exactly when that version was registered -/
+theorem contains_iff (grp : String) (rs : List Ref) (n : String) :
+    (contains grp (rs.foldl register []) n none = true ↔ ∃ r ∈ rs, r.name = n) ∧
+    ∀ v, (contains grp (rs.foldl register []) n (some v) = true ↔ (⟨grp, n, v⟩ : Ref) ∈ rs) :=
+  ⟨contains_none_iff grp rs n, contains_some_iff grp rs n⟩
+
+/-- `group.get(name, version)` is the plugin `resolve` picks (so `resolve_spec`, `resolve_none_iff`,
+`resolve_latest` describe it); `group[key]` is the same for keys that are `in` the group and
+`KeyError` otherwise. Queries read the table only: interleaving them with registrations cannot
+change any later answer (they are functions of the registrations made so far). -/
+theorem get_is_resolve (grp : String) (t : Table) (n : String) (v : Option Ver) :
+    getPlugin grp t n v = resolve grp t n v ∧
+    getItem grp t n v = (if contains grp t n v then some (resolve grp t n v) else none) :=
+  ⟨rfl, rfl⟩
+
 /-! ## entry point names -/
 
 /-- `from_ep_name(to_ep_name(name, version)) == (name, version)` for every valid qualified
@@ -220,5 +246,12 @@ example : resolve "schema" ([⟨"schema", "vt.aa", (1, 2, 0)⟩, ⟨"schema", "v
     ⟨"schema", "vt.aa", (2, 0, 0)⟩, ⟨"schema", "vt.aa", (1, 10, 0)⟩].foldl register [])
     "vt.aa" (some (1, 1, 0)) = some ⟨"schema", "vt.aa", (1, 10, 0)⟩ := by decide
 example : lt ⟨"g", "aa", (1, 9, 0)⟩ ⟨"g", "aa", (1, 10, 0)⟩ = true := by decide
+example : ([⟨"schema", "vt.aa", (1, 2, 0)⟩, ⟨"schema", "vt.ab", (1, 0, 5)⟩,
+    ⟨"schema", "vt.aa", (1, 0, 0)⟩].foldl register []).keys =
+    [⟨"schema", "vt.aa", (1, 0, 0)⟩, ⟨"schema", "vt.aa", (1, 2, 0)⟩, ⟨"schema", "vt.ab", (1, 0, 5)⟩] := by decide
+example : getItem "schema" ([⟨"schema", "vt.aa", (1, 2, 0)⟩, ⟨"schema", "vt.aa", (1, 0, 0)⟩].foldl register [])
+    "vt.aa" (some (1, 0, 0)) = some (some ⟨"schema", "vt.aa", (1, 2, 0)⟩) := by decide
+example : getItem "schema" ([⟨"schema", "vt.aa", (1, 2, 0)⟩].foldl register [])
+    "vt.aa" (some (1, 0, 0)) = none := by decide
 
 end MetadorModel.C16
